@@ -13,8 +13,12 @@ for name in sorted(os.listdir(sd)):
     summ = " ".join(str(m.get("summary", "")).split())
     summ = summ[:230] + ("…" if len(summ) > 230 else "")
     others = sorted(c for c, v in matrix.get(name, {}).items() if v == "VIOLATION" and c != m.get("owning_check"))
-    own = matrix.get(name, {}).get(m.get("owning_check"), "VIOLATION (tools/seedtest.py)")
-    first = "no → strengthened" if m.get("missed_by_first_version_of_check") else "yes"
+    own = m.get("owning_check_verdict") or matrix.get(name, {}).get(m.get("owning_check"), "VIOLATION")
+    if m.get("not_caught_because"):
+        own = "held — " + m["not_caught_because"]
+    first = ("no → " + m.get("strengthening", "strengthened")) if m.get("missed_by_first_version_of_check") else "yes"
+    if m.get("not_caught_because"):
+        first = "no"
     rows.append(f"| {name} | {m.get('owning_check')} | {', '.join(m.get('files', []))[:60]} | {summ.replace('|', '/')} | {first} | {own if isinstance(own, str) else own} | {', '.join(others) or '-'} |")
 text = ["## 10. Seeded changes and which checks catch them", "",
         "Changes produced by independent sub-agents (each given only the text of one property and a scratch worktree of /repo; nothing",
